@@ -32,6 +32,8 @@ CHECKS = {
          "Populations created exactly as the UE loops do are judged by UePop.tla: SUPI_i = IMSI + i with the same digits, pairwise distinct, inside the PLMN; RAN-UE-NGAP-IDs pairwise distinct; configured K/OP/OPc; capability bits exactly the algorithms used. On the wire the same is seen by the TLC AMF in C01/C02 (SUCI of UE u)."),
  "C17": ("TLA+ trace validation with TLC: 3GPP encodings and inverse pairs transcribed in TraceConvert.tla (PCO parser as an explicit state machine)",
          "S-NSSAI, AMF-ID split, transport layer addresses (IPv4/IPv6/dual, both directions) and protocol configuration options (marshal + parse back) are judged against the TLA+ transcriptions; PLMN conversion with C11."),
+ "C12": ("TLC-generated well-formed setup requests (GenExtract: spec SMF + Per.tla) replayed into the real extractors and judged by TLC; TLC liveness model checking of the extraction walk (PduExtract.tla) with leads replayed under a watchdog",
+         "The specification's SMF builds Accepts (optional IE subsets in table order, QoS rule lengths 0..4000) inside protected DL NAS TRANSPORT and PER-encodes setup request transfers; the real extractors must return exactly the address/TEID/UPF the generator put in. Termination: the walk is transcribed as a TLA+ state machine and model-checked for termination over all octet-class strings up to length 4; every class string up to length 3|4 and random inputs up to 4 KiB are run through the real functions under a 2 s watchdog."),
 }
 NA = {}
 def main():
